@@ -15,7 +15,7 @@ PROPERTIES = {
         not_reached=["generated PEG parser == CPython parser on every module"],
         bounded=[
             "standins/python_corpus.py: real parse_string + compileScenicAST vs ast.parse (all fields, lineno, end_lineno) modulo the documented rewrites; "
-            "quick tier 150 files <= 8 kB (100 stdlib + 50 site-packages, VERIF_SEED-chosen), thorough tier every file; file list and bytes in evidence/C09_corpus.json",
+            "quick tier 100 files <= 4 kB (70 stdlib + 30 site-packages, VERIF_SEED-chosen) + 4 fixed regression snippets, thorough tier every file; file list and bytes in evidence/C09_corpus.json",
         ],
     )
 }
